@@ -109,6 +109,11 @@ structure Site where
   passes : SrcSet
   /-- what the message is when nothing is configured: "d" built-in text, "e" empty -/
   base : String
+  /-- the sources that reach FinalizeIssue when the failing check has a message *function* that
+      answers "" for the issue.  Equal to `passes` without `check` at every site except `Refine`:
+      a refinement without a message presets the text "Invalid input" (nothing is consulted), one
+      with a message function does not, so a declining function lets the lower sources through. -/
+  passesSilentCheck : SrcSet
   deriving Repr, DecidableEq
 
 /-- the winner the property demands: the first configured source in priority order, else the
@@ -134,6 +139,12 @@ def siteMessage (passes cfg : SrcSet) : String :=
 
 def Site.winner (s : Site) (cfg : SrcSet) : String :=
   let w := siteMessage s.passes cfg
+  if w = "d" then s.base else w
+
+/-- the winner when the sources in `silent ⊆ cfg` are message functions that answer "" -/
+def Site.winnerSilent (s : Site) (cfg silent : SrcSet) : String :=
+  let eff := cfg.diff silent
+  let w := siteMessage (if silent.check then s.passesSilentCheck else s.passes) eff
   if w = "d" then s.base else w
 
 end Gozod.Msg
